@@ -63,6 +63,7 @@ class MachO(BinFormat):
         nl_symbol_ptr (dict): address to non-lazy symbol bindings
     """
     is_MachO = True
+    dynamic = False
 
     @property
     def entrypoints(self):
